@@ -143,6 +143,11 @@ def unsaturated_4ring(m):
 # ---------------------------------------------------------------------------------------------------
 # Coq case collection: groups of (definitions, cases) packed into shards of bounded text size
 
+class NoCases:
+    def add(self, defs, cases):
+        pass
+
+
 class Cases:
     def __init__(self, name):
         self.name = name
@@ -226,6 +231,12 @@ CURATED = [
 # atom states the recorded findings are about (known_findings.d/C05.json), kept so that they stay observed
 FINDING_INPUTS = ['Cp1cccn1', 'C[as]1cccn1', 'C[b-]1(C)cccn1', '[cH-]1cccn1', '[c-]1ccncc1', '[nH+]1ccncc1', '[bH-]1ccncc1', 'c1cpccp1', 'b1cnncn1',
                   '[se+]1cccnc1', '[te+]1cccnc1', 'c1cnc[as]c1', 'c1cc[as]cc1']
+
+# ring systems on which the pyridine-over-pyrrole buffer of _kekule_component decides the result of kekule() (found by
+# comparing the search with a copy whose buffer test is off by one; on the 4200 corpus molecules the buffer never matters)
+BUFFER_INPUTS = ['n1ccc2ncccc2n1', 'c1ccc2cc3ncccc3nc2c1', 'c1cnc2ccc3ncccc3c2c1', 'c1cc2nccc3ccc(n1)c23', 'n1cc2n(C)ncc2o1', 'c1cnc2nc3nnccc3nc2c1',
+                 'n1cc[n+]2ncncc2n1', 'c1ccc2c(n1)ncc1c2ncc2ncccc12', 'c1cc2c(p1)c1c(p2)cccc1', 'n1ccc2nc3ccccc3nc2n1', 'c1ccc2cc3cnncc3nc2c1',
+                 'n1cc2cccn3ncc(n1)n23']
 
 MALFORMED = [
     # mis-drawn / malformed
@@ -324,7 +335,7 @@ def load_inputs(ck):
     from chython import smiles, SDFRead
     rng = random.Random(f'{ck.seed}:c05:inputs')
     quick = ck.tier == 'quick'
-    items = [('curated', s) for s in dict.fromkeys(CURATED + KEKULE_SPELLED + FINDING_INPUTS)]
+    items = [('curated', s) for s in dict.fromkeys(CURATED + KEKULE_SPELLED + FINDING_INPUTS + BUFFER_INPUTS)]
     items += [('malformed', s) for s in dict.fromkeys(MALFORMED)]
     items += generated(rng, 72 if quick else 600)
     try:
@@ -527,6 +538,8 @@ class Pipe:
         ck, cs = self.ck, self.cs
         self.i += 1
         i = self.i
+        if renumbered and kind in ('six', 'six-special', 'five', 'quinoid') and ck.tier == 'quick' and (i // 2) % 2:
+            cs = NoCases()      # every second renumbered generated single ring: real-code oracles only (Coq volume of the quick tier)
         tag = f'{kind}{"/renumbered" if renumbered else ""}'
         is_sdf = kind == 'arenes.sdf'
         smi = label
@@ -636,7 +649,10 @@ class Pipe:
         cases.append((f'kekule_rel_x {b(bool(hchg))} {b(bool(ve))} {src} k{i}', ('kekule_rel', 'kekule()', label, list(m0._atoms)), ('kekule', label, code)))
         ck.case(('kekule', tag, label), nontrivial=aromatic_input)
         k2 = k.copy()
-        r2 = k2.kekule()
+        try:
+            r2 = k2.kekule()
+        except InvalidAromaticRing as e:
+            r2 = repr(e)
         if r2 or snap(k2) != snap(k):
             self.bad(True, f'kekule-twice:{smi}', 'second kekule() changes the molecule / reports a conversion', label, [r2, str(k2)], [False, str(k)],
                      'snapshot equality', code_of('m.kekule(); print(m); print(m.kekule(), m)'))
@@ -1042,8 +1058,11 @@ def domain_free_oracles(m, what):
         if any(o0 in (2, 3) and o1 != o0 for (_, o0), (_, o1) in zip(nb0, nb1)):
             out.append(f'{what}: a double / triple bond of atom {n} was rewritten')
     k2 = k.copy()
-    if k2.kekule() or snap(k2) != s1:
-        out.append(f'{what}: second kekule() changes the result')
+    try:
+        if k2.kekule() or snap(k2) != s1:
+            out.append(f'{what}: second kekule() changes the result')
+    except Exception as e:
+        out.append(f'{what}: second kekule() raises {type(e).__name__}')
     return out
 
 
@@ -1111,10 +1130,19 @@ def run(ck):
     pipe = Pipe(ck, cs)
     rng = random.Random(f'{ck.seed}:c05:renumber')
     mols = load_inputs(ck)
+    def guarded(kind, label, m, **kw):
+        try:
+            return pipe.run(kind, label, m, **kw)
+        except Exception as e:      # an exception no stage expects: the real code broke in the middle of a conversion sequence
+            ck.counterexample(f'conversion-crash:{type(e).__name__}:{label}', f'a conversion sequence kekule() / thiele() / enumerate_kekule() raises {type(e).__name__}: {e}',
+                              {'input': label, 'numbering': list(m._atoms)}, repr(e), 'no exception', 'exception class',
+                              replay_py=None if kind == 'arenes.sdf' else f'from chython import smiles\nm=smiles({label!r}); m.kekule(); m.kekule(); m.thiele(); m.thiele(); print(m, list(m.enumerate_kekule()))')
+            return None
+
     for kind, label, m0 in mols:
-        res = pipe.run(kind, label, m0)
+        res = guarded(kind, label, m0)
         mr, pi = renumber(m0, rng)
-        res_r = pipe.run(kind, label, mr, renumbered=True, full=False)
+        res_r = guarded(kind, label, mr, renumbered=True, full=False)
         dom = domain(str(m0) if kind == 'arenes.sdf' else label)[0]
         if (res is None) != (res_r is None):
             pipe.bad(True, f'renumbering-acceptance:{label}', 'kekule() succeeds under one numbering and raises under another', label,
@@ -1141,8 +1169,10 @@ def run(ck):
     if not ok:
         ck.unchecked('correspondence cases did not evaluate', log[-1500:])
     if prep_failed or rel_failed:
-        n_found = directed_search(ck, prep_failed + rel_failed)
-        ck.extra['directed_search_failures'] = n_found
+        try:
+            ck.extra['directed_search_failures'] = directed_search(ck, prep_failed + rel_failed)
+        except Exception as e:
+            ck.extra['directed_search_failures'] = f'stopped: {type(e).__name__}: {e}'
     if prep_failed:
         ck.unchecked('correspondence Model.Kekule.prepare_rings / kekule_driver vs chython/algorithms/aromatics/kekule.py', 'model and implementation disagree',
                      [repr(c[1]) for c in prep_failed[:20]])
